@@ -425,6 +425,14 @@ def r7_bit_sets_are_sized_in_words(ctx):
             ctx.ok("bitset-size|words", fn.where(c.block), "length %s" % t)
         else:
             ctx.bad("bitset-size|%s" % t[:30], fn.where(c.block), "a liveness bit set is created with `%s` words instead of word_count(n) = ceil(n / 64): each set is up to 64 times larger than the liveness bound assumes, so a program well inside the limit runs the arena out of memory (abort) instead of being analysed" % t)
+    # the reservation as well: a capacity counted in locals while the length stays in words changes no result and takes 64
+    # times the memory from an arena that the CLI shares with the running program
+    for c in [c for c in fn.calls() if (c.callee or "").split("::")[-1] in ("with_capacity_in", "with_capacity", "reserve", "reserve_exact")]:
+        t = sh(ne(fn.deep(c.args[0] if (c.callee or "").split("::")[-1].startswith("with_capacity") else c.args[1]))).replace(" ", "")
+        if re.match(r"^word_count\(\w+\)$", t) or re.match(r"^div_ceil\(\w+,64\)$", t) or re.match(r"^Div\(Add\(\w+,63\),64\)$", t):
+            ctx.ok("bitset-capacity|words", fn.where(c.block), "capacity %s" % t)
+        else:
+            ctx.bad("bitset-capacity|%s" % t[:30], fn.where(c.block), "a liveness bit set reserves `%s` words where it uses word_count(n): the results are the same and every set takes up to 64 times the memory - in the CLI, whose runtime frames sit on top of the resolver's scratch arena, a program that needs most of the arena aborts although the library pipeline with separate arenas runs it" % t)
     wc = ctx.need("analysis::liveness::word_count")
     ctx.touch(wc)
     t = " ".join(sh(ne(wc.deep_rvalue(st["rv"]))) for b in sorted(wc.live) for st in wc.blocks[b]["s"] if st["lhs"]["l"] == 0) + " " + " ".join(sh(ne(wc.deep(c.args[0]))) + c.callee.split("::")[-1] for c in wc.calls())
